@@ -235,7 +235,7 @@ func batch(args []string) {
 			seenSig[sig] = true
 			raw, _ := json.Marshal(plan)
 			rf := &detsim.ReplayFile{Property: *prop, Engine: e.Name(), Tier: *tier, BatchSeed: *seed, Index: idx, RunSeed: runSeed,
-				RepoTreeHash: *treeHash, Plan: raw, Choices: rec, Violation: v, EventLogHash: fmt.Sprintf("%016x", rep.LogHash)}
+				RepoTreeHash: *treeHash, Plan: raw, Choices: rec, Violation: v, EventLogHash: fmt.Sprintf("%016x", rep.LogHash), WorkerFrom: *from}
 			path := filepath.Join(*rdir, fmt.Sprintf("%s-%d-%d-%s.json", *prop, *seed, idx, v.Class))
 			if err := rf.Write(path); err != nil {
 				fmt.Fprintln(os.Stderr, "simworker:", err)
@@ -271,6 +271,7 @@ func replay(args []string) {
 	lenient := fs.Bool("lenient", false, "lenient chooser (shrinking)")
 	out := fs.String("out", "", "write the outcome as a replay file")
 	trace := fs.Bool("trace", false, "print the event trace")
+	warm := fs.Bool("warmup", false, "first re-execute the seeded runs of the finding worker that preceded this one")
 	fs.Parse(args)
 	if fs.NArg() != 1 {
 		fmt.Fprintln(os.Stderr, "usage: simworker replay file.json")
@@ -289,6 +290,22 @@ func replay(args []string) {
 	}
 	_ = trace
 	rl := detsim.NewRaceLog(raceLogPrefix())
+	if (*warm || rf.WarmUp) && rf.Index < detsim.SysBase && rf.Index > rf.WorkerFrom {
+		n := 0
+		for i := rf.WorkerFrom; i < rf.Index; i++ {
+			seed := detsim.Mix(rf.BatchSeed, rf.Property+"/"+rf.Tier, i)
+			wp := e.Gen(rf.Property, rf.Tier, detsim.NewRand(seed))
+			if fp, ok := e.(detsim.FreshProcesser); ok && fp.FreshProcess(wp) {
+				continue // ran in a process of its own
+			}
+			atomic.StoreInt32(&simRunning, 1)
+			e.Run(wp, &detsim.SeedChooser{R: detsim.NewRand(seed ^ detsim.SchedSalt)})
+			atomic.StoreInt32(&simRunning, 0)
+			n++
+		}
+		rl.Grown() // reports of the warm-up runs are not this run's
+		fmt.Printf("REPLAY warm-up: re-executed %d preceding runs of the finding worker\n", n)
+	}
 	var ch detsim.Chooser
 	rch := &detsim.ReplayChooser{List: rf.Choices, Strict: !*lenient}
 	sch := &detsim.SeedChooser{R: detsim.NewRand(rf.RunSeed ^ detsim.SchedSalt)}
